@@ -14,7 +14,7 @@ PROPERTY = "C02"
 LEVEL = "exploration"
 RULE = (
     "(a) sequential generated logging programs (all action/message kinds, remote sub-tasks, generators, re-entered "
-    "contexts); (b) the same next to 1-3 additional destinations that raise on generated subsets of their calls "
+    "contexts; a third facet lets user fields be named task_uuid / task_level / timestamp, which eliot must overwrite); (b) the same next to 1-3 additional destinations that raise on generated subsets of their calls "
     "(fault masks; Exception subclasses incl. one whose str() raises) while one healthy observer records; (c) structured "
     "concurrent programs under harness-owned schedules (see C05, whose runs are also checked with these invariants). "
     "Oracle: field presence/types, run-wide uniqueness of (task_uuid, task_level), positions of every action exactly 1..n "
@@ -140,12 +140,36 @@ def seq_strategy():
     return st.builds(lambda p: {"program": p}, P.programs(max_nodes=14))
 
 
+def collide_strategy():
+    from .. import values as V
+
+    return st.builds(
+        lambda p: {"program": p},
+        P.programs(
+            max_nodes=12,
+            max_depth=4,
+            names=V.colliding_field_names(),
+            kinds=["with", "finish", "finish_inside", "run", "task", "gen_close", "gen_next"],
+            msg_kinds=["log_message", "action_log", "Message_log", "Message_new"],
+        ),
+    )
+
+
+def classify_collide(case, info):
+    text = canon(case["program"])
+    hit = any(('"%s":' % k) in text for k in ("task_uuid", "task_level", "timestamp"))
+    nt, labels = classify_seq(case, info)
+    if hit:
+        labels.append("user-field-named-like-eliot-key")
+    return bool(hit and info["max_depth"] >= 1), labels
+
+
 def faults_strategy():
     return st.builds(
-        lambda p, f, pos: {"program": p, "faulty": f, "observer_pos": pos},
-        P.programs(max_nodes=12),
+        lambda f, pos, p: {"program": p, "faulty": f, "observer_pos": pos},
         faulty_strategy(),
         st.integers(0, 3),
+        P.programs(max_nodes=12),
     )
 
 
@@ -162,4 +186,5 @@ KNOWN = {"F7-report-after-end": _known_f7}
 FACETS = [
     Facet("sequential", seq_strategy, check_seq, classify_seq, quick=1000, thorough=30000),
     Facet("faults", faults_strategy, check_faults, classify_faults, quick=800, thorough=20000),
+    Facet("colliding-names", collide_strategy, check_seq, classify_collide, quick=500, thorough=10000),
 ]
